@@ -11,61 +11,42 @@
      _ready of s may differ from ready_spec only if s carries _check_ready.
    `AllCorrect g` says that every cached attribute of every step equals its definition (for
    _implied_need: of every attached step) and that no flag is left.
-   Two facts are read from the repository on every run and decide which of the conditional
-   theorems below is the live one: `safe_merge` (how FILL_SAFE_UPDATE merges duplicate rows) and
-   `trg_dep_del` (the body of the dependency delete trigger). *)
+   Two facts read from the repository on every run carry the full theorems: `safe_merge`
+   (FILL_SAFE_UPDATE keeps the trace row of maximal depth, since repo commit 21289e7) and
+   `trg_dep_del` (the dependency delete trigger also flags the producers of the source file, since
+   f76dbc9).  If either regresses, the proofs of the `_repo` lemmas stop compiling.  The two
+   `_refuted_for_...` theorems record what was wrong with the earlier shapes. *)
 From Coq Require Import List NArith Bool Arith.
 From SV Require Import lib.Bytes lib.SqlExpr gen.GenSched model.Sched proofs.SchedProofs.
 Import ListNotations.
 Open Scope N_scope.
 
-(* ---- full statements (kept visible) ---- *)
+(* ---- update_meta ---- *)
 
 (* After the three metadata updates of pop_next_job every cached attribute equals its definition,
    from any snapshot in which every possibly stale value is flagged. Includes termination of the
-   propagation loop (update_meta returns Some). *)
-Definition C10_update_meta_full : Prop :=
+   propagation loop (update_meta returns Some); g' differs from g only in cached columns and flags. *)
+Theorem C10_update_meta_correct :
   forall g, WF g -> Acyclic g -> FlagInv g ->
-    exists g', update_meta g = Some g' /\ AllCorrect g'.
-
-(* The set of steps the dispatch query can return is exactly the set of eligible steps. *)
-Definition C10_dispatch_full : Prop :=
-  forall g, WF g -> Acyclic g -> FlagInv g -> HasHashInv g ->
-    exists g', update_meta g = Some g' /\
-      forall s, In s (dispatch_set g') <-> (In s (g_steps g') /\ eligible_spec g' s = true).
-
-(* Deleting a dependency edge keeps the flag invariant of _implied_need. *)
-Definition C10_del_dep_need_flag_full : Prop :=
-  forall g d, WF g -> FlagInv_need g -> In d (g_deps g) -> FlagInv_need (del_dep g d).
-
-(* ---- update_meta ---- *)
-
-(* Proved for every snapshot under the extra hypothesis NoStaleLow (no flagged step has a creator
-   whose cached _safe is lower than its definition), which is not needed when duplicate trace rows
-   are merged by depth. *)
-Theorem C10_update_meta_correct_partial :
-  forall g, WF g -> Acyclic g -> FlagInv g ->
-    (safe_merge = MergeDeepest \/ NoStaleLow g) ->
     exists g', update_meta g = Some g' /\ AllCorrect g' /\ (exists f, keeps f /\ g' = mapg f g).
-Proof. exact update_meta_correct_gen. Qed.
+Proof. exact update_meta_correct_repo. Qed.
 
-Theorem C10_update_meta_full_when_merged_by_depth :
-  safe_merge = MergeDeepest -> C10_update_meta_full.
-Proof.
-  intros H g Hwf Hac HF. destruct (update_meta_correct_gen g Hwf Hac HF (or_introl H)) as [g' [H1 [H2 _]]].
-  exists g'. split; assumption.
-Qed.
+(* For any merge policy: with MIN the extra hypothesis NoStaleLow is needed (no flagged step has a
+   creator whose cached _safe is lower than its definition). *)
+Theorem C10_update_meta_correct_any_merge :
+  forall pol g, WF g -> Acyclic g -> FlagInv g ->
+    (pol = MergeDeepest \/ NoStaleLow g) ->
+    exists g', update_meta_with pol g = Some g' /\ AllCorrect g' /\ (exists f, keeps f /\ g' = mapg f g).
+Proof. exact update_meta_with_correct. Qed.
 
-(* D11: with MIN as merge the full statement is false; a step that is eligible by definition is
-   left undispatched (witness: a flagged step under a flagged creator whose cached _safe is 0). *)
-Theorem C10_update_meta_full_refuted_when_merged_by_min :
-  safe_merge = MergeMin ->
+(* D18 (was C10-D11), fixed by 21289e7: with MIN as merge the statement is false; a step that is
+   eligible by definition is left undispatched (witness: a flagged step under a flagged creator
+   whose cached _safe is 0). *)
+Theorem C10_update_meta_refuted_for_min_merge :
   exists g, WF g /\ Acyclic g /\ FlagInv g /\ HasHashInv g /\
-    exists g', update_meta g = Some g' /\ ~ AllCorrect g' /\
+    exists g', update_meta_with MergeMin g = Some g' /\ ~ AllCorrect g' /\
       exists s, In s (g_steps g') /\ eligible_spec g' s = true /\ ~ In s (dispatch_set g').
-Proof.
-  intros H. unfold update_meta. rewrite H. exact update_meta_min_merge_refuted.
-Qed.
+Proof. exact update_meta_min_merge_refuted. Qed.
 
 (* The three updates separately. *)
 Theorem C10_update_meta_ready_correct :
@@ -81,7 +62,7 @@ Theorem C10_update_meta_after_correct :
         s_chk_after s = false /\ (s_detached s = false -> s_ineed s = need_spec g' (s_key s)).
 Proof. exact update_meta_after_correct. Qed.
 
-Theorem C10_update_meta_safe_correct_partial :
+Theorem C10_update_meta_safe_correct_any_merge :
   forall pol g, CreatorAcyclic g -> FlagInv_safe g -> (pol = MergeDeepest \/ NoStaleLow g) ->
     forall s, In s (g_steps (update_meta_safe_with pol g)) ->
       (s_safe s, s_safe_nh s) = safe_spec (update_meta_safe_with pol g) s /\ s_chk_safe s = false.
@@ -105,19 +86,12 @@ Proof. exact unavailable_meaning. Qed.
 
 (* ---- dispatch ---- *)
 
-Theorem C10_dispatch_only_eligible_partial :
+(* The set of steps the dispatch query can return is exactly the set of eligible steps. *)
+Theorem C10_dispatch_only_eligible :
   forall g, WF g -> Acyclic g -> FlagInv g -> HasHashInv g ->
-    (safe_merge = MergeDeepest \/ NoStaleLow g) ->
     exists g', update_meta g = Some g' /\ AllCorrect g' /\
       forall s, In s (dispatch_set g') <-> (In s (g_steps g') /\ eligible_spec g' s = true).
-Proof. exact dispatch_only_eligible_gen. Qed.
-
-Theorem C10_dispatch_full_when_merged_by_depth : safe_merge = MergeDeepest -> C10_dispatch_full.
-Proof.
-  intros H g Hwf Hac HF HH.
-  destruct (dispatch_only_eligible_gen g Hwf Hac HF HH (or_introl H)) as [g' [H1 [_ H2]]].
-  exists g'. split; assumption.
-Qed.
+Proof. exact dispatch_only_eligible_repo. Qed.
 
 (* Every step in the dispatch set is pending, attached, not deferred, needed above the threshold,
    has all inputs available, is created by steps that are RUNNING/SUCCEEDED and not holding (or has
@@ -134,16 +108,14 @@ Proof. exact eligible_spec_meaning. Qed.
 
 (* Builder.job_loop of a scheduler that is not draining returns only when nothing runs, nothing
    waits to be handled, and no step of the graph is eligible. *)
-Theorem C10_phase_end_nothing_eligible_partial :
+Theorem C10_phase_end_nothing_eligible :
   forall g njob running done hs,
-    WF g -> Acyclic g -> FlagInv g -> HasHashInv g ->
-    (safe_merge = MergeDeepest \/ NoStaleLow g) ->
-    0 < njob ->
+    WF g -> Acyclic g -> FlagInv g -> HasHashInv g -> 0 < njob ->
     job_loop_may_end njob running done hs (job_loop_pop njob running hs false g) = true ->
     running = 0 /\ done = 0 /\
     exists g', update_meta g = Some g' /\ AllCorrect g' /\
                forall s, In s (g_steps g') -> eligible_spec g' s = false.
-Proof. exact phase_end_nothing_eligible_gen. Qed.
+Proof. exact phase_end_nothing_eligible_repo. Qed.
 
 (* ---- defer cap ---- *)
 
@@ -164,20 +136,17 @@ Theorem C10_defer_count_counts_defers :
     s_defer_count (run_events cap s l) = s_defer_count s + count_defers l.
 Proof. exact defer_count_run. Qed.
 
-(* ---- D8: the dependency delete trigger ---- *)
+(* ---- D8 (fixed by f76dbc9): the earlier dependency delete trigger ---- *)
 
 (* With the trigger body that flags only the two endpoints, deleting a file -> step edge breaks the
    flag invariant of _implied_need; after the next update the producer keeps a stale value and a
    step that is not eligible by definition is in the dispatch set. *)
-Theorem C10_del_dep_need_flag_refuted_when_sink_only :
-  trg_dep_del = trg_dep_del_sink_only ->
+Theorem C10_del_dep_need_flag_refuted_for_sink_only_trigger :
   exists g d, WF g /\ Acyclic g /\ AllCorrect g /\ HasHashInv g /\
-    ~ FlagInv_need (del_dep g d) /\
-    forall pol, exists g', update_meta_with pol (del_dep g d) = Some g' /\
+    ~ FlagInv_need (del_dep_with trg_dep_del_sink_only g d) /\
+    forall pol, exists g', update_meta_with pol (del_dep_with trg_dep_del_sink_only g d) = Some g' /\
       ~ AllCorrect g' /\ exists s, In s (dispatch_set g') /\ eligible_spec g' s = false.
-Proof.
-  intros H. unfold del_dep. rewrite H. exact del_dep_sink_only_refuted.
-Qed.
+Proof. exact del_dep_sink_only_refuted. Qed.
 
 (* ---- flag soundness of the primitive mutations, with the trigger bodies of the repository ---- *)
 
@@ -197,22 +166,18 @@ Proof. exact release_step_sound. Qed.
 Theorem C10_ins_dep_preserves_FlagInv : forall g d, WF g -> FlagInv g -> FlagInv (ins_dep g d).
 Proof. exact ins_dep_sound_repo. Qed.
 
-(* DELETE FROM dependency (+ dynamic_dep): proved when the trigger also flags the producers of the
-   source file, or when the sink is not an attached step (nobody loses a consumer). *)
-Theorem C10_del_dep_preserves_FlagInv_partial :
-  forall g d, WF g -> FlagInv g ->
-    (flags_producers trg_dep_del = true \/
-     (forall sy, find_step g (d_snk d) = Some sy -> s_detached sy = true)) ->
-    FlagInv (del_dep g d).
-Proof. exact del_dep_sound_repo. Qed.
+(* DELETE FROM dependency (+ dynamic_dep) *)
+Theorem C10_del_dep_preserves_FlagInv : forall g d, WF g -> FlagInv g -> FlagInv (del_dep g d).
+Proof. exact del_dep_sound_full_repo. Qed.
 
-Theorem C10_del_dep_need_flag_full_when_producers_flagged :
-  flags_producers trg_dep_del = true -> C10_del_dep_need_flag_full.
-Proof.
-  intros H g d Hwf HF _. unfold del_dep. apply del_dep_need_sound; try assumption.
-  - apply has_stmt_In. vm_compute. reflexivity.
-  - left. apply flags_producers_In. exact H.
-Qed.
+(* For any trigger body: sound when it also flags the producers of the source file, or when the sink
+   is not an attached step (nobody loses a consumer). *)
+Theorem C10_del_dep_need_sound_any_trigger :
+  forall g trg d, WF g -> In (FAfter, TSource) trg ->
+    (In (FAfter, TProducersOfSource) trg \/
+     (forall sy, find_step g (d_snk d) = Some sy -> s_detached sy = true)) ->
+    FlagInv_need g -> FlagInv_need (del_dep_with trg g d).
+Proof. exact del_dep_need_sound. Qed.
 
 (* File.set_state: _safe and _ready (for _implied_need only a change to or from VOLATILE matters;
    not proved) *)
